@@ -8,6 +8,7 @@ import json
 import random
 
 from .. import common as C
+from .. import memmodel as M
 from .. import asmtext as A
 
 PROP = "C05"
@@ -41,6 +42,8 @@ def key_of(prog):
 def run(tier, seed):
     chk = C.Check(PROP, tier, seed, "model_checking")
     vdir = C.ensure_build("rel")
+    # the image itself (core/Memory.cpp) against Image.tla: every property that reads the image rests on it
+    M.run_image(chk, tier, seed, random.Random(seed + 17), PROP)
     rd = chk.rundir
 
     g1 = C.tlc("GenAsmData", "gen_AsmData_pairs.cfg", rd, workers=8, heap="6g")
